@@ -14,7 +14,7 @@ TEXT = {
  "C03": ("model_checking", "Bounded symbolic execution of CopyTToTerraform emitted by the real plugin for every corpus program into an empty object typed by the oracle: no reachable panic, no error diagnostic, every attribute present with exactly the schema's value type, nothing unknown, created containers carry the schema's element/attribute types - for all struct values within the bounds. The schema's attribute types are the types the converters write (GenSchemaT walked against the oracle, incl. schema_types overrides and type constructors).", "6 C03"),
  "C04": ("model_checking", "CopyTo into an empty object followed by CopyFrom into a fresh struct, all struct values within the bounds: equality up to the documented normal form, one solver obligation per field path.", "6 C04"),
  "C05": ("model_checking", "CopyFrom from arbitrary conforming objects (nulls/unknowns anywhere, with and without payload under Null/Unknown) into two independently arbitrary targets: no error, null/unknown => zero/nil/empty (a null or unknown oneof branch attribute never makes its branch the held one), result independent of prior content and of hidden payload, excluded fields untouched.", "6 C05"),
- "C06": ("model_checking", "CopyFrom on objects corrupted at every depth (deleted / wrong dynamic type / nil interface attributes and list elements, nil Attrs) and CopyTo with attribute types removed at every object level: no reachable panic, exactly one missing diagnostic per missing attribute with the field's path, conversion diagnostics, intact attributes copied as in the uncorrupted run; diag.Diagnostics.Append/Contains and the generated diagnostic types are interpreted from their real SSA. The placeholder attribute of a field-less message is corrupted like any other. Both tiers use lists of at most 2; the thorough tier adds programs and witnesses. CopyTo into targets whose message attributes hold null / unknown objects without an Attrs map (as decoded from a state with null blocks): no panic, no error.", "6 C06"),
+ "C06": ("model_checking", "CopyFrom on objects corrupted at every depth (deleted / wrong dynamic type / nil interface attributes and list elements, nil Attrs) and CopyTo with attribute types removed at every object level: no reachable panic, exactly one missing diagnostic per missing attribute with the field's path, conversion diagnostics, intact attributes copied as in the uncorrupted run; diag.Diagnostics.Append/Contains and the generated diagnostic types are interpreted from their real SSA. The placeholder attribute of a field-less message is corrupted like any other. Both tiers use lists of at most 2; the thorough tier adds programs and witnesses. CopyTo into targets whose message attributes hold null / unknown objects without an Attrs map (as decoded from a state with null blocks): no panic, no error. Custom-type fields: a missing attribute (CopyFrom) or attribute type (CopyTo) is a diagnostic and the hook is not called without a type (recording hooks of P-custom).", "6 C06"),
  "C07": ("model_checking", "CopyFrom with any mix of branch attributes and any prior oneof state: exactly one known non-null branch => that wrapper with that value, none => nil; CopyTo: inactive branches null, active non-null iff payload non-zero; level K: GetOneOfNames / GetOneOfFieldName / GetOneOfTypeName agree for every declaration name.", "6 C07"),
  "C08": ("model_checking", "plan -> CopyFrom -> CopyTo in place for all plans under the property's side conditions: nothing unknown afterwards, known attributes unchanged, list/map null-ness, length and key set kept, decoding again yields the same struct.", "6 C08"),
  "C09": ("model_checking", "two successive in-place CopyTo calls with arbitrary earlier and new struct values, then a third identical call: lengths, elements, key sets, scalar values, pointer-backed null-ness follow the source (children of a nullable embedded message that became nil: null / empty); idempotence by deep equality of the Terraform values.", "6 C09"),
